@@ -135,6 +135,16 @@ CLAIMS = {
              "reaches the sync; every path handed to open/copyfile/_load is the resolved path without lossy projection; reopening "
              "restores the count. NOT decided: crash atomicity of the 8-byte write, page-cache / msync behaviour (OS semantics).",
         design_ref="DESIGN.md section 4 C11"),
+    "C03": dict(
+        technique="linear-ownership typestate of table entries over enumerated paths incl. raise exits; loop summarised by an invariant",
+        text="Structural part: in both cuckoo contexts no table slot is overwritten before its content was captured; at every success "
+             "exit of the insert nothing is held outside the table and a returned left-over is exactly what is in hand (the eviction "
+             "loop is covered for ALL random choices by the invariant 'one entry in hand, in the in-hand variable'); expansion collects "
+             "the left-over and every bucket over the full old range before replacing the table and re-inserts the whole list; add() "
+             "passes the left-over on; remove mutates only after the presence test. KNOWN FINDINGS (genuine defect D6, not repaired): "
+             "_deal_with_insertion and _expand_logic raise CuckooFilterFullError with entries held only in locals, in both contexts. "
+             "Does not decide that an expansion into a larger table always succeeds.",
+        design_ref="DESIGN.md section 4 C03, section 5 D6, E7"),
 }
 
 NA_DEFAULT = "check not built yet (build phase in progress; DESIGN.md section 4 gives the planned rule)"
